@@ -493,6 +493,12 @@ VARIANTS += [
     ("C14-absolute-deepcopy-inherited", "C14", DUR, "    def __deepcopy__(self, _: dict[int, Self]) -> Self:\n        return self.__class__(*self._getstate())\n", "", "STATE-COMPLETE.tabulated"),
 ]
 
+# defect repaired in /repo by e2b9338 (nth_of() of an occurrence beyond 9999-12-31 raised OverflowError): re-introduced
+VARIANTS += [
+    ("C16-nth-overflow-date", "C16", "src/pendulum/date.py", "        except OverflowError:\n            # The occurrence would lie after the last supported date\n            dt = None\n", "        except ZeroDivisionError:\n            dt = None\n", "CALENDAR.tabulated"),
+    ("C16-nth-overflow-datetime", "C16", DT, "        except OverflowError:\n            # The occurrence would lie after the last supported date\n            dt = None\n", "        except ZeroDivisionError:\n            dt = None\n", "CALENDAR.tabulated"),
+]
+
 # round 2: rules added for the second batch of independent seeds and for the defects they led to
 VARIANTS += [
     ("C06-rs-carry-gt", "C06", RSH, "            } else if dtinfo1.hour >= 24 {", "            } else if dtinfo1.hour > 24 {", "UTCSHIFT.rs"),
